@@ -10,6 +10,9 @@ void harness(void) {
   uint8_t in[LEN + 1], sout[LEN + 1];
   in_bytes(in, LEN);
   uint32_t strict = in_bool();
+#ifdef FIRST
+  in[0] = FIRST; /* concrete first byte (cell): CBMC follows one branch of the parser's dispatch */
+#endif
   { unsigned nb = 0; for (unsigned i = 0; i < LEN; i++) nb += (in[i] == '[' || in[i] == '{'); ASSUME(nb <= NB); }
   /* bound on the exponent loop of the code under test: at most one digit after e/E[+-] */
   for (unsigned i = 0; i + 2 < LEN; i++) if (in[i] == 'e' || in[i] == 'E') {
